@@ -674,7 +674,7 @@ func batchWatch(t *testing.T, e *env, res *result, r *rand.Rand, k int) {
 		if err != nil {
 			t.Fatalf("watch: %v", err)
 		}
-		K := 10 + r.IntN(30)
+		K := 10 + r.IntN(60)
 		type w struct {
 			del bool
 			val string
@@ -717,6 +717,12 @@ func batchWatch(t *testing.T, e *env, res *result, r *rand.Rand, k int) {
 				}
 			}
 		}(lastRev)
+		// every third full-history run: a consumer that does not read at all while the
+		// writer works (a watch loop busy in a slow callback), then drains
+		if hist != 1 && ri%3 == 0 {
+			<-done
+			res.obs("c14.watch_runs_paused_consumer", 1)
+		}
 		// consumer that calls Updates() before every receive, exactly as watchLoop does
 		var got []string
 		first := wt.Updates()
